@@ -216,13 +216,33 @@ func c06Build(c *choice.Stream) *c06Case {
 			shown = fmt.Sprintf("%s...(%d bytes)", shown[:60], len(ty))
 		}
 		typed := c.Bool("ht.typed", 1, 3)
+		typedKind := c.Draw("ht.typed.kind", 8)
 		cs.desc["type"], cs.desc["rows"], cs.desc["typed_target"] = shown, rows, typed
 		cs.decode = func(data []byte) (int, []proto.Column, []*refproto.Type, error) {
 			rd := proto.NewReader(&simio.FaultyReader{Data: data})
 			var b proto.Block
 			if typed {
 				// a typed target is asked to adopt the type from the wire
-				tgt := proto.Results{{Name: "c", Data: new(proto.ColStr).Array()}}
+				var data proto.ColResult
+				switch typedKind {
+				case 0:
+					data = new(proto.ColStr).Array()
+				case 1:
+					data = new(proto.ColDateTime64)
+				case 2:
+					data = new(proto.ColEnum)
+				case 3:
+					data = proto.NewMap[string, string](new(proto.ColStr), new(proto.ColStr))
+				case 4:
+					data = proto.ColTuple{new(proto.ColStr), new(proto.ColDateTime)}
+				case 5:
+					data = new(proto.ColInterval)
+				case 6:
+					data = new(proto.ColDateTime64).Array()
+				default:
+					data = new(proto.ColDateTime)
+				}
+				tgt := proto.Results{{Name: "c", Data: data}}
 				if err := b.DecodeBlock(rd, rev, tgt); err != nil {
 					return 0, nil, nil, err
 				}
